@@ -1185,42 +1185,60 @@ func (c *Ctx) r0120(pk *packages.Package) {
 		}
 		return true
 	})
-	// simulate the body for (kind, byte): true = the scan returns (truthy)
+	// simulate the body for (kind, byte): true = the scan returns (a verdict other than "all digits are zero": truthy, or
+	// "cannot tell"). A condition that cannot be evaluated is taken both ways; the outcomes must agree.
+	unknown := false
 	var runStmts func(list []ast.Stmt, env map[string]int64) (returned, decided bool)
+	var runIf func(ifs *ast.IfStmt, rest []ast.Stmt, env map[string]int64) (bool, bool)
+	runIf = func(ifs *ast.IfStmt, rest []ast.Stmt, env map[string]int64) (bool, bool) {
+		asTrue := func() (bool, bool) {
+			if r, d := runStmts(ifs.Body.List, env); d {
+				return r, true
+			}
+			return runStmts(rest, env)
+		}
+		asFalse := func() (bool, bool) {
+			switch e := ifs.Else.(type) {
+			case nil:
+				return runStmts(rest, env)
+			case *ast.IfStmt:
+				return runIf(e, rest, env)
+			case *ast.BlockStmt:
+				if r, d := runStmts(e.List, env); d {
+					return r, true
+				}
+				return runStmts(rest, env)
+			}
+			return false, false
+		}
+		if ifs.Init != nil {
+			unknown = true
+			return false, false
+		}
+		v, ok := evalIntExpr(info, ifs.Cond, env)
+		if !ok {
+			r1, d1 := asTrue()
+			r2, d2 := asFalse()
+			if d1 && d2 && r1 == r2 {
+				return r1, true
+			}
+			unknown = true
+			return false, false
+		}
+		if v != 0 {
+			return asTrue()
+		}
+		return asFalse()
+	}
 	runStmts = func(list []ast.Stmt, env map[string]int64) (bool, bool) {
-		for _, st := range list {
+		for i, st := range list {
 			switch s := st.(type) {
 			case *ast.ReturnStmt:
 				return true, true
 			case *ast.BranchStmt:
 				return false, true
 			case *ast.IfStmt:
-				var cur ast.Stmt = s
-				for cur != nil {
-					ifs, ok := cur.(*ast.IfStmt)
-					if !ok {
-						if blk, isBlk := cur.(*ast.BlockStmt); isBlk {
-							if r, d := runStmts(blk.List, env); d {
-								return r, true
-							}
-						}
-						break
-					}
-					if ifs.Init != nil {
-						return false, false
-					}
-					v, ok := evalIntExpr(info, ifs.Cond, env)
-					if !ok {
-						return false, false
-					}
-					if v != 0 {
-						if r, d := runStmts(ifs.Body.List, env); d {
-							return r, true
-						}
-						break
-					}
-					cur = ifs.Else
-				}
+				return runIf(s, list[i+1:], env)
 			default:
 				// other statements (assignments to counters) do not decide
 			}
@@ -1249,24 +1267,12 @@ func (c *Ctx) r0120(pk *packages.Package) {
 		undecided := false
 		for _, d := range ds {
 			env[cname] = int64(d)
+			unknown = false
 			returned, decided := runStmts(loop.Body.List, env)
 			if !decided {
 				// falling through the body: the byte is passed over
 				returned = false
-				// distinguish "could not evaluate" from "fell through": re-run to see whether any condition failed to evaluate
-				okAll := true
-				ast.Inspect(loop.Body, func(q ast.Node) bool {
-					if ifs, isIf := q.(*ast.IfStmt); isIf {
-						if _, ok := evalIntExpr(info, ifs.Cond, env); !ok {
-							// short-circuit may hide unevaluable operands; only a top-level failure counts
-							if _, ok2 := evalIntExpr(info, ifs.Cond, env); !ok2 {
-								okAll = false
-							}
-						}
-					}
-					return true
-				})
-				if !okAll {
+				if unknown {
 					undecided = true
 				}
 			}
